@@ -695,9 +695,6 @@ def guarded(c, f):
         for name, obj, fr in r_.pop("_args", []):
             if freeze(obj) != fr:
                 rec["oracle"].append("caller-argument-changed")
-    vd = (c["src"].get("ty") or {}).get("vdtype")
-    if vd == "bigint" and c["kind"] in ("sel", "getregion", "getname", "pad"):
-        rec["tags"].append("C07-int64-beyond-2p53-cast-to-float")
     rec["oracle"] = sorted(set(rec["oracle"]))
     return rec
 
